@@ -119,6 +119,7 @@ def closed_loop(M, rec, rng, n_sims, steps, on_step=None, before_case=None):
         ctrl = {}
         rec.count("simulations")
         alive = True
+        info = {"clamped": 0.0}
         for k in range(steps):
             if k % 30 == 0:
                 for o in desc["origins"]:
@@ -164,12 +165,18 @@ def closed_loop(M, rec, rng, n_sims, steps, on_step=None, before_case=None):
                         if not math.isfinite(x) or (name != "w" and x < 0) or abs(x) > 1e6:
                             ok = False
             if on_step:
-                on_step(k, desc, vals, nxt, pars, built)
+                on_step(k, desc, vals, nxt, pars, built, info)
             if not ok:
                 rec.count("sim_left_admissible_domain")
                 break
             for eid, d in nxt.items():
                 for name, v in d.items():
-                    vals[eid][name] = list(v) if isinstance(v, list) else max(v, 0.0) if name == "w" else v
+                    if isinstance(v, list):
+                        vals[eid][name] = list(v)
+                    elif name == "w" and v < 0.0:
+                        info["clamped"] += -v  # vehicles added by feeding back max(0, w)
+                        vals[eid][name] = 0.0
+                    else:
+                        vals[eid][name] = v
         if not alive:
             rec.count("sim_aborted_by_exception")
